@@ -11,7 +11,7 @@ from .sym import (SymStr, ListV, TupV, EnumV, RefV, ClosV, FnItem, IterV, Opaque
 from . import models as M
 from .mir import split_top
 from .models import (P, deref, as_str, elems, call_seq, truth_forks, iterable, cmp_scalar_forks, cmp_str_forks, _stable_sort,
-                     _list_ref, _value_eq)
+                     _list_ref, _value_eq, ordering)
 
 
 def deep_eq(ex, st, p, q):
@@ -100,11 +100,23 @@ def m_entry_or_insert(ex, st, fr, callee, a, depth):
     return RefV(r.addr, r.path + (0, len(ents) - 1, 1))
 
 
+def hash_order(ex, n):
+    """positions 0..n-1 of a hash container's entries in the order the executor's hash-order policy iterates them: the real order is
+    arbitrary (per-instance random keys); the policies are three of the n! possibilities -- insertion order, its reverse, rotated by one"""
+    pol = getattr(ex, 'hash_order', 'insertion')
+    idx = list(range(n))
+    if pol == 'reverse':
+        return idx[::-1]
+    if pol == 'rotate':
+        return idx[1:] + idx[:1]
+    return idx
+
+
 def m_hashmap_iter(ex, st, fr, callee, a, depth):
-    """HashMap::iter: yields (&K, &V) in INSERTION order (one of the orders the real map may produce)"""
+    """HashMap::iter: yields (&K, &V) in the order of the hash-order policy (default: INSERTION order, one of the orders the real map may produce)"""
     r, mp = _map_ref(st, a[0])
     n = len(mp.get('entries').items)
-    return IterV('list', items=tuple(TupV((RefV(r.addr, r.path + (0, i, 0)), RefV(r.addr, r.path + (0, i, 1)))) for i in range(n)))
+    return IterV('list', items=tuple(TupV((RefV(r.addr, r.path + (0, i, 0)), RefV(r.addr, r.path + (0, i, 1)))) for i in hash_order(ex, n)))
 
 
 def m_hashmap_len(ex, st, fr, callee, a, depth):
@@ -240,6 +252,14 @@ def m_tuple_windows(ex, st, fr, callee, a, depth):
     m = re.search(r'tuple_windows::<\((.*)\)>$', callee, re.S)
     k = len(split_top(m.group(1))) if m else 2
     return [(s, IterV('list', items=tuple(TupV(tuple(xs[i:i + k])) for i in range(len(xs) - k + 1)))) for s, xs in elems(ex, st, a[0], depth)]
+
+
+def m_tuple_combinations(ex, st, fr, callee, a, depth):
+    """Itertools::tuple_combinations: every k-element combination of the items, in lexicographic order of their positions"""
+    import itertools
+    m = re.search(r'tuple_combinations::<\((.*)\)>$', callee, re.S)
+    k = len(split_top(m.group(1))) if m else 2
+    return [(s, IterV('list', items=tuple(TupV(tuple(c)) for c in itertools.combinations(xs, k)))) for s, xs in elems(ex, st, a[0], depth)]
 
 
 def m_coalesce(ex, st, fr, callee, a, depth):
@@ -396,6 +416,7 @@ MODELS2 = [
     (P(r' as Itertools>::(chunk_by|group_by)::<'), m_chunk_by),
     (P(r'^<&itertools::(ChunkBy|GroupBy)<.*> as IntoIterator>::into_iter$'), m_chunk_by_into_iter),
     (P(r' as Itertools>::tuple_windows::<'), m_tuple_windows),
+    (P(r' as Itertools>::tuple_combinations::<'), m_tuple_combinations),
     (P(r' as Itertools>::coalesce::<'), m_coalesce),
     (P(r' as Itertools>::dedup$'), m_dedup_iter),
     (P(r'^Vec::<.*>::splice::<'), m_vec_splice),
@@ -571,9 +592,20 @@ def m_set_contains(ex, st, fr, callee, a, depth):
 
 
 def m_set_iter(ex, st, fr, callee, a, depth):
-    """HashSet / BTreeSet iteration in INSERTION order (one of the orders the real hash set may produce)"""
+    """HashSet iteration in the order of the hash-order policy (default: INSERTION order, one of the orders the real hash set may produce)"""
     r, sv = _set_ref(st, a[0])
+    if getattr(ex, 'hash_order', 'insertion') != 'insertion' and 'HashSet' in callee:
+        return IterV('list', items=tuple(RefV(r.addr, r.path + (0, i)) for i in hash_order(ex, len(sv.get('items').items))))
     return IterV('list', by_ref=RefV(r.addr, r.path + (0,)))
+
+
+def m_set_into_iter_owned(ex, st, fr, callee, a, depth):
+    """HashSet::into_iter (by value): the elements in the order of the hash-order policy"""
+    sv = a[0] if isinstance(a[0], TupV) else deref(st, a[0])
+    if not (isinstance(sv, TupV) and sv.tag == 'Set'):
+        return NotImplemented
+    items = list(sv.get('items').items)
+    return IterV('list', items=tuple(items[i] for i in hash_order(ex, len(items))))
 
 
 def _set_op(kind):
@@ -582,7 +614,9 @@ def _set_op(kind):
         rb, sb = _set_ref(st, a[1])
         A, B = list(sa.get('items').items), list(sb.get('items').items)
         cur = [(st, [])]
-        for i, x in enumerate(A):
+        order = hash_order(ex, len(A)) if 'HashSet' in callee else list(range(len(A)))
+        for i in order:
+            x = A[i]
             nxt = []
             for s, acc in cur:
                 for s2, inb in ex.branch(s, _member(ex, s, B, x)):
@@ -752,6 +786,7 @@ def m_hashmap_get(ex, st, fr, callee, a, depth):
 MODELS2 = [
     (P(r'^(HashSet|BTreeSet)::<.*>::contains::<'), m_set_contains),
     (P(r'^(HashSet|BTreeSet)::<.*>::iter$|^<&(HashSet|BTreeSet)<.*> as IntoIterator>::into_iter$'), m_set_iter),
+    (P(r'^<HashSet<.*> as IntoIterator>::into_iter$'), m_set_into_iter_owned),
     (P(r'^HashSet::<.*>::intersection$'), _set_op('intersection')),
     (P(r'^HashSet::<.*>::difference$'), _set_op('difference')),
     (P(r'^(HashSet|BTreeSet)::<.*>::len$'), m_set_len),
@@ -1066,7 +1101,76 @@ def m_slice_contains_scalar(ex, st, fr, callee, a, depth):
     return NotImplemented
 
 
+def ord_cmp_value(ex, st, x, y, depth):
+    """<T as Ord>::cmp for plain data, as #[derive(Ord)] defines it: scalars, strings, Vec (lexicographic), structs field by field
+    (the type's own `cmp` body is run from MIR when the crate has one), enums by variant then fields -> [(state, ordering name)]"""
+    x, y = deref(st, x), deref(st, y)
+    if isinstance(x, SymStr) and isinstance(y, SymStr):
+        return cmp_str_forks(ex, st, list(x.items), list(y.items))
+    if is_z3(x) and is_z3(y):
+        if z3.is_bool(x):
+            outs = []
+            for s1, eq in ex.branch(st, x == y):
+                if eq:
+                    outs.append((s1, 'Equal'))
+                else:
+                    for s2, t in ex.branch(s1, y):
+                        outs.append((s2, 'Less' if t else 'Greater'))
+            return outs
+        return cmp_scalar_forks(ex, st, x, y)
+    if isinstance(x, ListV) and isinstance(y, ListV):
+        xs, ys = list(x.items), list(y.items)
+        outs, work = [], [(st, 0)]
+        while work:
+            s, i = work.pop()
+            if i == len(xs) or i == len(ys):
+                outs.append((s, 'Equal' if len(xs) == len(ys) else ('Less' if len(xs) < len(ys) else 'Greater')))
+                continue
+            for s2, c in ord_cmp_value(ex, s, xs[i], ys[i], depth):
+                if c == 'Equal':
+                    work.append((s2, i + 1))
+                else:
+                    outs.append((s2, c))
+        return outs
+    if isinstance(x, TupV) and isinstance(y, TupV) and x.tag and x.tag == y.tag:
+        own = [n for n in ex.mir.fns if re.search(r'<impl at [^>]*>::cmp$', n) and ex.mir.fns[n].params and
+               ex.mir.fns[n].params[0][1].strip() in ('&' + x.tag, '&%s<\'_>' % x.tag)]
+        if len(own) == 1:
+            res = []
+            for o in ex.run_fn(st, own[0], [st.ref(x), st.ref(y)], depth + 1):
+                if o.panic or not (isinstance(o.val, EnumV) and o.val.enum == 'Ordering'):
+                    raise Inconclusive('%s::cmp returned %r' % (x.tag, o.val))
+                res.append((o.st, o.val.variant))
+            return res
+    if isinstance(x, TupV) and isinstance(y, TupV) and len(x.fields) == len(y.fields):
+        return ord_cmp_value(ex, st, ListV(x.fields), ListV(y.fields), depth)
+    if isinstance(x, EnumV) and isinstance(y, EnumV) and x.enum == y.enum:
+        if x.disc != y.disc:
+            return [(st, 'Less' if x.disc < y.disc else 'Greater')]
+        return ord_cmp_value(ex, st, ListV(x.fields), ListV(y.fields), depth)
+    raise Inconclusive('Ord::cmp on %r, %r' % (x, y))
+
+
+def m_ord_cmp_generic(ex, st, fr, callee, a, depth):
+    """<Vec<T> / bool / plain struct as Ord>::cmp: lexicographic, false < true, field by field"""
+    return [(s, ordering(c)) for s, c in ord_cmp_value(ex, st, a[0], a[1], depth)]
+
+
+def m_btreeset_iter_sorted(ex, st, fr, callee, a, depth):
+    """BTreeSet<T> iterates in ascending order of T's Ord: the elements are sorted with T::cmp (the crate's own body from MIR for its
+    types; forks on undecided comparisons)"""
+    r, sv = _set_ref(st, a[0])
+    items = list(sv.get('items').items)
+    outs = []
+    for s, srt in _stable_sort(ex, st, [RefV(r.addr, r.path + (0, i)) for i in range(len(items))],
+                               lambda ss, p, q: ord_cmp_value(ex, ss, p, q, depth)):
+        outs.append((s, IterV('list', items=tuple(srt))))
+    return outs
+
+
 MODELS2 = [
+    (P(r'^BTreeSet::<(?!char>).*>::iter$|^<&BTreeSet<(?!char>).*> as IntoIterator>::into_iter$'), m_btreeset_iter_sorted),
+    (P(r'^<(Vec<.*>|bool) as (Partial)?Ord>::cmp$'), m_ord_cmp_generic),
     (P(r'^CharRange::all$'), m_charrange_all),
     (P(r'^CharRange::iter$'), m_charrange_iter),
     (P(r'^<CharIter as Iterator>::position::<'), m_chariter_position),
